@@ -28,7 +28,7 @@ NATIVE_COVERS = {q: ["get_async"] for q in ("release_data", "finish_task", "get_
 
 def native(tier, seed):
     from vf import sched_native
-    return [sched_native.sweep(tier, seed)]
+    return [sched_native.sweep(tier, seed), sched_native.packing_sweep(tier, seed)]
 
 
 def replay_native(native):
